@@ -1,15 +1,10 @@
 (* C12 — constraints that concern one row at a time: type and length, NOT NULL, CHECK.
    Every stored row version (live or not) and every row written by an open transaction satisfies
    them, for every history and every interleaving of sessions. *)
-From V Require Import SQLCons.Model SQLCons.Basics SQLCons.Steps SQLCons.Frame.
+From V Require Import SQLCons.Model SQLCons.Spec SQLCons.Basics SQLCons.Steps SQLCons.Frame.
 From Coq Require Import ZArith Lia.
 From Coq Require Import ZifyN ZifyNat ZifyBool.
 Open Scope N_scope.
-
-(* values fit their declared type and length *)
-Definition tl_ok (g : cfg) (r : row) : Prop :=
-  (r_v r = VNull \/ exists z, r_v r = VInt z /\ in_i64 z = true) /\
-  (r_s r = VNull \/ exists s, r_s r = VStr s /\ len s <= k_maxlen g).
 
 Record rowok (g : cfg) (nn ck : bool) (r : row) : Prop := mkRowok {
   ro_tl : tl_ok g r;
